@@ -28,6 +28,10 @@ class EMix(enum.Enum):
     S = "b"
     N = None
     F = 2.5
+    # members whose value is the TEXT of another member's value
+    T1 = "1"
+    TNULL = "null"
+    TF = "2.5"
 
 class EIntEnum(enum.IntEnum):
     A = 1
@@ -149,6 +153,36 @@ class PCinh(PCbase):
     def __repr__(self):
         return f"PCinh(a={self.a!r}, b={self.b!r})"
 
+class PCinitE:
+    # no class-level hints: the fields are known from the annotations of __init__, given as real objects (no postponed evaluation)
+    __tlmc_fields__ = ("a", "b")
+    def __init__(self, a: int, b: str = "x"):
+        self.a = a
+        self.b = b
+    def __eq__(self, o):
+        return type(o) is type(self) and (self.a, self.b) == (o.a, o.b)
+    def __hash__(self):
+        return hash((self.a, self.b))
+    def __repr__(self):
+        return f"PCinitE(a={self.a!r}, b={self.b!r})"
+
+class SObase:
+    __slots__ = ("a", "b")
+
+class SOleaf(SObase):
+    # the attributes live in the slots of the BASE; this class declares `__slots__ = ()` and the constructor hints
+    __slots__ = ()
+    __tlmc_fields__ = ("a", "b")
+    def __init__(self, a: int, b: str = "x"):
+        self.a = a
+        self.b = b
+    def __eq__(self, o):
+        return type(o) is type(self) and (self.a, self.b) == (o.a, o.b)
+    def __hash__(self):
+        return hash((self.a, self.b))
+    def __repr__(self):
+        return f"SOleaf(a={self.a!r}, b={self.b!r})"
+
 class PCinit:
     # no class-level hints: the fields are known from the (string) annotations of __init__ only
     __tlmc_fields__ = ("a", "b")
@@ -205,6 +239,10 @@ class StrSub(str):
     pass
 
 class FloatSub(float):
+    pass
+
+class DTsub(datetime.datetime):
+    # a user subclass of datetime as TARGET type (the routine has to build the subclass from every kind of input)
     pass
 
 class IntSub(int):
